@@ -151,6 +151,9 @@ class Fixture(object):
                                      (c.LABEL_VALUE, ())))
             self.inject((c.MSG_REQUEST, 901, (c.HANDLE_CALLATTR, boxed)))
             self.settle()
+        elif name == "QuickArrives":
+            self.inject((c.MSG_REQUEST, 902, (c.HANDLE_PING, (c.LABEL_TUPLE, ((c.LABEL_VALUE, "unrelated"),)))))
+            self.settle()
         elif name in ("WaitReturn", "WaitTimeout", "WaitServe", "BusyDone", "Done", "Init"):
             pass
         else:
@@ -187,6 +190,11 @@ def replay(chk, beh, mode="async"):
             chk.evaluated()
             spec_obs = [tuple(o) for o in st["obs"]]
             got = norm_obs(fx.obs)
+            # the specification says the wait is over at this instant, so it must be over in the code too
+            if st["prog"] == "idle" and not fx.idle:
+                bad.append(("late", "after %s the specification has the program back from its wait at t=%s (%s), the code is still "
+                            "waiting (blocked at %r)" % (labels[1:i + 1], st["now"], spec_obs[-1:] , fx.prog.pending)))
+                break
             # compare when the program is at rest in both
             if st["prog"] == "idle" and fx.idle:
                 if got != spec_obs:
@@ -238,11 +246,13 @@ def replay_sync(chk, beh):
 def main():
     chk = Check(PID)
     gc.disable()
-    res = tlc.require_ok(tlc.run_tlc("MC_RpycAsync", "MC_RpycAsync.cfg", coverage=True, timeout=3000), "MC_RpycAsync")
+    res = tlc.require_ok(tlc.run_tlc("MC_RpycAsync", "MC_RpycAsync.cfg" if chk.thorough else "MC_RpycAsync_q.cfg",
+                                     coverage=True, timeout=3000), "MC_RpycAsync")
     if res.violation:
         raise tlc.MachineryError("specification RpycAsync violates " + res.violation)
-    chk.add_tlc(res, "exhaustive: T=3, timeouts {none,-1,0,1,2}, <=4 operations, reply/unrelated traffic at any instant")
-    for a in ("Tick", "ReplyArrives", "OtherArrives", "SetExpiry", "AddCallback", "QExpired", "QReady", "PollOther", "StartWait",
+    chk.add_tlc(res, "exhaustive: T=3, timeouts {none,-1,0,1,2}, <=%d operations, reply/unrelated traffic at any instant"
+                % (4 if chk.thorough else 3))
+    for a in ("Tick", "ReplyArrives", "OtherArrives", "QuickArrives", "SetExpiry", "AddCallback", "QExpired", "QReady", "PollOther", "StartWait",
               "WaitReturn", "WaitTimeout", "WaitServe", "BusyDone"):
         if res.coverage.get(a, (0, 0))[1] == 0:
             raise tlc.MachineryError("vacuity: action %s never taken" % a)
@@ -255,7 +265,37 @@ def main():
         for key, msg in bad:
             print("VIOLATION property=%s replay=%s\n   %s" % (PID, chk.replay, msg))
         return 1 if bad else 0
-    num = 700 if not chk.thorough else 8000
+    # focused model (set_expiry + wait only): the whole state graph is covered, so every ordering of reply, unrelated
+    # traffic (slow and instant) and expiry around a wait is executed
+    import os
+    import shutil
+    from harness.common import OUT
+    d = os.path.join(OUT, "c15.%d" % os.getpid())
+    os.makedirs(d, exist_ok=True)
+    gres = tlc.run_tlc("MC_RpycAsync", "MC_RpycAsync_wait.cfg", workers=8, dump=os.path.join(d, "graph"))
+    tlc.require_ok(gres, "RpycAsync wait-focused graph")
+    chk.add_tlc(gres, "wait-focused model (set_expiry, wait; reply / slow / instant unrelated traffic): full graph")
+    g = tlc.load_dot(os.path.join(d, "graph.dot"))
+    shutil.rmtree(d, ignore_errors=True)
+    quiet = ("WaitReturn", "WaitTimeout", "WaitServe", "BusyDone", "Tick")
+    paths = tlc.event_then_quiet_paths(g, lambda lab: lab.split("(")[0] not in quiet + ("Done",), quiet)
+    prnd = random.Random(chk.seed)
+    maxp = 10 ** 6
+    if len(paths) > maxp:
+        prnd.shuffle(paths)
+        paths = paths[:maxp]
+    for pi, path in enumerate(paths):
+        beh = [("Init", g.nodes[path[0]])] + [(lab, g.nodes[dst]) for lab, dst in path[1:]]
+        bad, labels = replay(chk, beh, "async")
+        chk.distinct(("wait-graph", tuple(labels)))
+        if not bad:
+            chk.validated()
+        for key, msg in bad:
+            chk.violation(key, "C15 [wait-focused] %s" % msg, {"mode": "graph", "labels": labels})
+        if pi % 300 == 299:
+            gc.collect()
+    chk.cov["wait_graph_paths"] = len(paths)
+    num = 300 if not chk.thorough else 8000
     total = 0
     for rnd_i, depth in enumerate((14, 22)):
         seed = chk.seed * 2 + rnd_i + 1
